@@ -250,7 +250,8 @@ READ_OPS = {"get_index", "get_name", "iter", "density", "metric", "eq", "subset"
 # --------------------------------------------------------------------------------------
 
 NAMES = ["a", "b", "mol_1", "mol_2", "x", "a"]   # duplicates on purpose
-PROPTYPES = {"pi": "i", "pf": "f", "pb": "b", "ps": "s"}
+# property names: ordinary ones, and names that begin with the character(s) the npz format uses as its key prefix
+PROPTYPES = {"pi": "i", "pf": "f", "pb": "b", "ps": "s", "_pi": "i", "__ps": "s"}
 
 
 def gen_pval(rng, t):
@@ -297,7 +298,7 @@ class HistGen:
             ops.append(op)
             oracle_step(live, op)
 
-        bits = rng.choice([8, 8, 64, 1024, 2 ** 32])
+        bits = rng.choice([8, 8, 64, 1024, 2 ** 32, 96, 1000])     # also lengths with an odd factor (fold 1000 -> 250)
         level = rng.choice([-1, 0, 5])
         keys = rng.choice([[], [], ["pi"], ["pi", "ps"], ["pf", "pb", "ps"]])
         for _ in range(rng.randint(1, 2)):
@@ -325,7 +326,7 @@ class HistGen:
             choices = ["add", "add", "add"]
             if db.rows:
                 choices += ["get_index", "get_name", "get_name_absent", "subset", "as_type", "copy", "fold", "concat",
-                            "set_prop", "update_props", "eq", "iter", "density", "metric", "get_index_oob"]
+                            "set_prop", "update_props", "eq", "iter", "density", "metric", "get_index_oob", "subset_absent"]
                 if self.save_ops:
                     choices += ["pickle", "savez"]
                 if self.faults:
